@@ -30,6 +30,7 @@ type replayEntry struct {
 	Harness string `json:"harness"`
 	Tape    string `json:"tape"`
 	Tier    string `json:"tier"`
+	Repeat  int    `json:"repeat,omitempty"`
 	// expectation (not read by the native test)
 	Kind   string   `json:"expect_kind"`
 	Msg    string   `json:"expect_msg"`
@@ -171,6 +172,7 @@ func cmdCheck(args []string) int {
 	tier := fs.String("tier", "quick", "quick|thorough")
 	workers := fs.Int("workers", runtime.NumCPU(), "workers")
 	solver := fs.String("solver", "z3-new", "solver")
+	cross := fs.String("cross", "auto", "second solver for assertion queries (auto = cvc5 in the thorough tier, none otherwise)")
 	noReplay := fs.Bool("no-replay", false, "skip native replay of witnesses (violations are always replayed)")
 	only := fs.String("only", "", "run only this harness")
 	fs.Parse(args)
@@ -201,8 +203,18 @@ func cmdCheck(args []string) int {
 	}
 	loadTime := time.Since(t0)
 	thorough := *tier == "thorough"
+	crossSolver := ""
+	switch *cross {
+	case "auto":
+		if thorough {
+			crossSolver = "cvc5"
+		}
+	case "none", "":
+	default:
+		crossSolver = *cross
+	}
 	ex := &sym.Explorer{Prog: prog, Workers: *workers, Solver: *solver, Findings: findings, Seed: seed,
-		Cfg: sym.Config{Thorough: thorough}}
+		Cfg: sym.Config{Thorough: thorough, CrossSolver: crossSolver}}
 	if err := ex.Start(); err != nil {
 		fmt.Fprintln(os.Stderr, err)
 		return 2
@@ -271,7 +283,11 @@ func cmdCheck(args []string) int {
 				problems = append(problems, "tape: "+err.Error())
 				return ""
 			}
-			entries = append(entries, replayEntry{ID: id, Harness: hs.Name, Tape: tape, Tier: *tier, Kind: o.Kind, Msg: o.Msg, Covers: o.Covers})
+			rep := 0
+			if prefix != "w" {
+				rep = 40 // violations may depend on Go's random map iteration order
+			}
+			entries = append(entries, replayEntry{ID: id, Harness: hs.Name, Tape: tape, Tier: *tier, Repeat: rep, Kind: o.Kind, Msg: o.Msg, Covers: o.Covers})
 			return id
 		}
 		for _, v := range res.Violations {
@@ -474,6 +490,9 @@ func writeEvidence(spec *PropSpec, tier string, seed int64, sums []hsum, ex *sym
 		q["feasibility"] += r.FeasQ
 		q["assertion"] += r.AssertQ
 		q["concretisation"] += r.ConcQ
+		q["cross_solver_asked"] += r.CrossAsked
+		q["cross_solver_agreed"] += r.CrossAgreed
+		q["cross_solver_skipped"] += r.CrossSkipped
 		solverTime += r.SolverTime.Seconds()
 		interpTime += r.InterpTime.Seconds()
 		hs = append(hs, map[string]interface{}{"harness": r.Name, "paths": r.Paths, "outcomes": r.Kinds, "ssa_steps": r.Steps,
